@@ -8,8 +8,9 @@ from d42 import optional, represent, schema, substitute
 from d42.representation import Representor
 
 MODULE = "D42.Props.C06"
-THEOREMS = []
-FILES = ["D42/Model/Data.lean", "D42/Model/Repr.lean", "D42/Model/Decl.lean", "D42/Props/C06.lean"]
+THEOREMS = ["repr_scalar_roundtrip", "reprScalar_eq_calls", "repr_scalar_stable", "pattern_excludes_len",
+            "represent_listE_layout", "reprElems_indent"]
+FILES = ["D42/Model/Data.lean", "D42/Model/Repr.lean", "D42/Model/Decl.lean", "D42/Props/C11.lean", "D42/Props/C06.lean"]
 
 EVIDENCE = dict(
     level="proof",
